@@ -192,13 +192,14 @@ def main(argv_tier=None, replay_path=None):
     deep = len({tuple(t["history"]) for t in traces if any(e["op"] == "search" and e["out"] == "ok" for e in t["ev"])})
     import growth
     ga = growth.alias(tr)
-    for o in ga["observations"]:
+    gl = growth.lost_echo(fx)
+    for o in ga["observations"] + gl["observations"]:
         print("OBSERVATION (outside the listed properties) %s" % o)
     from common import apalache_inductive
     apa = apalache_inductive("APA_ClientSM", "CInit", "CNext", "IndInit", "IndInv")
     cov = {
         "apalache_inductive_invariant": apa,
-        "growth": {"alias_registry": ga},
+        "growth": {"alias_registry": ga, "client_impl_lost_echo": gl},
         "states": r.distinct, "transitions": r.generated,
         "traces_validated_against_impl": len(traces), "trace_validation_states": agg["distinct"],
         "evaluations": len(traces), "distinct_nontrivial": len({tuple(t["history"]) for t in traces if any(e["out"] == "ok" for e in t["ev"])}),
